@@ -1,6 +1,6 @@
 (* C07 — Refilter emits precisely the membership changes; nothing if nothing
    changes.  Property theorems only. *)
-From KC Require Import Base Filter FilterProps Cache CacheSpec CacheProps CacheEvents FilterSub FilterSubProps RefilterDelta.
+From KC Require Import Base Filter FilterProps Cache CacheSpec CacheProps CacheEvents FilterSub FilterSubProps RefilterDelta RootHop RefilterHop.
 
 (* on a node whose cache is the f1-view of the parent content, Refilter(f2)
    leaves exactly the f2-view *)
@@ -60,3 +60,22 @@ Theorem C07_refilter_delta_per_key : forall f1 f2 plist k,
   end.
 Proof. exact refilter_delta_per_key. Qed.
 Print Assumptions C07_refilter_delta_per_key.
+
+(* KNOWN FINDING D13 (C07 side), as a theorem about the faithful hop: the
+   delta above is what filterSubscription.run computes; distributeEvents then
+   pushes it without waiting into a channel of [cap] = EventBufsiz slots.  When
+   the reader of that channel does not run meanwhile, what is sent is the first
+   [cap] events, and some object whose membership changed is not announced. *)
+Theorem C07_refilter_delta_is_truncated_refuted : forall (f1 f2 : Filter.filter) (plist : list obj) (cap : nat),
+  let delta := snd (do_sync (accept f2) (view f1 plist) plist) in
+  cap < length delta ->
+  exists k, kevs k delta <> [] /\ kevs k (sent cap delta) = [].
+Proof. exact refilter_delta_is_truncated. Qed.
+Print Assumptions C07_refilter_delta_is_truncated_refuted.
+
+(* ... and nothing but the size of the batch is wrong *)
+Theorem C07_refilter_delta_fits : forall (f1 f2 : Filter.filter) (plist : list obj) (cap : nat),
+  let delta := snd (do_sync (accept f2) (view f1 plist) plist) in
+  length delta <= cap -> sent cap delta = delta.
+Proof. exact refilter_delta_fits. Qed.
+Print Assumptions C07_refilter_delta_fits.
